@@ -1,22 +1,32 @@
 /-
 `Ssa.lower`: a Lean model of the AST -> SSA translation of the real compiler
-(/repo/compiler/ast/ssagen.go) for the scalar fragment of the MPCL subset
-(core Lean only: the driver `Driver/C03Lower.lean` executes it next to the real
-ssagen on every run; `Proofs/MpclSsa.lean` proves it correct against the
-reference interpreter).
+(/repo/compiler/ast/ssagen.go, lrvalue.go) for the MPCL subset of property C03:
+scalars, fixed-size arrays, structs (also nested), function calls with several
+results (core Lean only: the driver `Driver/C03Lower.lean` executes it next to
+the real ssagen on every run; `Proofs/MpclSsa.lean` proves it correct against
+the reference interpreter).
 
 Fragment (anything else makes `lower` answer `none`):
 
-  types   T ::= bool | intN | uintN
+  types   T ::= bool | intN | uintN | [n]T | struct { T .. T }
   expr    e ::= x | n (integer literal typed by its context, 0 <= n, in range)
               | true | false | i (loop constant) | T(n) | T(i)
               | e + e | e - e | e * e | e / e | e % e | e & e | e | e | e ^ e | e &^ e
               | e << k | e >> k | e < e | e <= e | e > e | e >= e | e == e | e != e
-              | e && e | e || e | !e | -e | T(e)
-  stmt    s ::= var x T | var x T = e | x := e | x = e
+              | e && e | e || e | !e | -e | T(e)            (operands: scalars)
+              | e[k]   (k a literal or a loop constant, k < n)
+              | e[e']  (e' of type uintK with 2^K <= n: never out of range)
+              | e.f
+              | f(e, .., e)  (one result; arguments are not constants)
+  lval    l ::= x | l[k] | l.f
+  stmt    s ::= var x T | var x T = e | x := e | l = e
+              | x, .., y := f(e, .., e) | l, .., l = f(e, .., e)
               | if e { s* } [else { s* }] | for i := lo; i <cmp> hi; i += st { s* }
               | return e, .., e
-  func      ::= func(params T..) { s* }     every path ends in a `return`
+  func      ::= func(params T..) (results) { s* }   every path ends in a `return`;
+              named results are `var r T` at the start of the body (harness
+              desugaring, /repo 4accfb7: zero-initialised)
+  program   ::= func*; a call targets a function with a smaller index (no recursion)
 
 How ssagen.go is modelled (function by function):
   * Binary.SSA: operand code left to right, then ONE instruction chosen by the
@@ -34,6 +44,20 @@ How ssagen.go is modelled (function by function):
     `mov`; a conversion of a constant is folded (ast/eval.go);
   * VariableDef.SSA / Assign.SSA / LRValue.Set: the value is moved into a
     fresh version of the variable; `var x T` moves the zero constant;
+  * Index.constIndex: `slice a k*bits (k+1)*bits`; an index `>= n` is a compile
+    error (`none`); Index.index: `index a 0 i bits`;
+  * LookupVar / LRValue.RValue for `s.f`: `slice s off off+bits` with the field
+    offset `off` (sum of the widths of the preceding fields);
+  * Assign.SSA (Index l-value) / LRValue.Set (struct field): `amov v x from to`
+    replaces the component's wires: directly in a fresh version of the root
+    variable for a field, through an anonymous value and a `mov` for an array
+    element (for the nested path `s.f[k] = v` the model emits ONE `amov` at the
+    total offset where the real compiler emits slice + amov + amov: same value);
+  * Call.SSA: the callee is INLINED: argument code, one `mov` per parameter
+    into a fresh value bound to the parameter name in a NEW scope (the callee
+    sees no caller variable), the callee's body, then its results selected
+    along ITS branch structure (Func.SSA: Block.ReturnBinding); several results
+    are delivered in order (`x, y := f(..)`, `a, b = f(..)`);
   * If.SSA + Bindings.Merge: the condition, then BOTH branches are generated;
     every variable whose binding differs is merged by `phi cond t f` (the real
     compiler creates the phi lazily at the first use, `Select.Value`; the model
@@ -51,9 +75,13 @@ from the fragment by decidable conditions (ids in /verif/known_findings.json):
   * C03-const-signed-widening: a literal whose own 32/64-bit constant has its
     top bit set, used at a wider signed type                   (`litOk`)
   * literal signedness: a literal at a signed type must be < 2^(N-1) (`litOk`)
-  * C03-inner-block-redeclaration / C03-define-redeclared-rejected: all
-    declared names (parameters, `var`, `:=`, loop variables) are pairwise
-    distinct, no `:=` inside a `for` body                      (`scopeOk`)
+  * C03-inner-block-redeclaration / C03-define-redeclared-rejected: in every
+    function all names declared by parameters, `var`, `:=` are pairwise
+    distinct, a loop variable is none of them and not the variable of an
+    enclosing loop, no `:=` inside a `for` body                 (`scopeOk`)
+Not in the fragment (no deviation known, just not modelled): `return f(..)`
+and `g(f(..))` with a call delivering SEVERAL values at once, constant
+arguments of calls, constant-only expressions (folding is C12's subject).
 -/
 import MpcVerif.Model.MpclSsa
 
@@ -99,7 +127,7 @@ def NEnv.declare : NEnv → String → Bind → NEnv
   | [], x, b => [[(x, b)]]
   | s :: r, x, b => ((x, b) :: s) :: r
 
-/-! ### Scalar types -/
+/-! ### Types -/
 
 def numTy : Ty → Option (Bool × Nat)
   | .int w => some (true, w)
@@ -113,11 +141,19 @@ def sbits : Ty → Option Nat
   | .uint w => some w
   | _ => none
 
+mutual
 def tyEq : Ty → Ty → Bool
   | .bool, .bool => true
   | .int a, .int b => a == b
   | .uint a, .uint b => a == b
+  | .arr n e, .arr m e' => n == m && tyEq e e'
+  | .struct fs, .struct gs => tyEqList fs gs
   | _, _ => false
+def tyEqList : List Ty → List Ty → Bool
+  | [], [] => true
+  | t :: ts, u :: us => tyEq t u && tyEqList ts us
+  | _, _ => false
+end
 
 /-! ### Constants -/
 
@@ -181,88 +217,29 @@ def constVal : SArg → Nat
   | .pat v _ => v
   | _ => 0
 
-/-- Model of Binary.SSA / Unary.SSA / Call.cast / VariableRef.SSA / BasicLit.SSA.
-Result: operand, its type, the code, the next free value id. -/
-def lowerE (nm : NEnv) : Expr → Nat → Option (SArg × Ty × List SInstr × Nat)
-  | .lit t n, next =>
-    match t with
-    | .bool => some (.pat (if n = 0 then 0 else 1) 1, .bool, [], next)
-    | .int w => if litOk true w n then some (constArg n true w, t, [], next) else none
-    | .uint w => if litOk false w n then some (constArg n false w, t, [], next) else none
-    | _ => none
-  | .var x, next =>
+/-- A compile-time index: a literal or a loop constant (Index.constIndex,
+Assign.SSA `ConstInt`). -/
+def constIdx (nm : NEnv) : Expr → Option Nat
+  | .lit t k =>
+    match numTy t with
+    | some (s, w) => if litOk s w k then some k else none
+    | none => none
+  | .var x =>
     match nm.find x with
-    | some (.val id t) =>
-      match sbits t with
-      | some w => some (.var id w, t, [], next)
-      | none => none
-    | some (.konst n) => some (constArg n true 32, .int 32, [], next)
-    | none => none
-  | .bin op a b, next =>
-    match lowerE nm a next with
-    | some (aa, ta, ca, n1) =>
-      match lowerE nm b n1 with
-      | some (ba, tb, cb, n2) =>
-        if aa.isConst && ba.isConst then none
-        else if !tyEq ta tb then none
-        else
-          match lowerBin op ta with
-          | some (sop, tr) =>
-            match sbits tr with
-            | some wr => some (.var n2 wr, tr, ca ++ cb ++ [⟨sop, [aa, ba], some (n2, wr)⟩], n2 + 1)
-            | none => none
-          | none => none
-      | none => none
-    | none => none
-  | .shift left a k, next =>
-    match lowerE nm a next with
-    | some (aa, ta, ca, n1) =>
-      if aa.isConst then none else
-      match numTy ta with
-      | some (s, w) =>
-        some (.var n1 w, ta,
-          ca ++ [⟨if left then .lshift else if s then .srshift else .rshift, [aa, .k k], some (n1, w)⟩], n1 + 1)
-      | none => none
-    | none => none
-  | .not a, next =>
-    match lowerE nm a next with
-    | some (aa, ta, ca, n1) =>
-      if aa.isConst then none else
-      match ta with
-      | .bool => some (.var n1 1, .bool, ca ++ [⟨.lnot, [aa], some (n1, 1)⟩], n1 + 1)
-      | _ => none
-    | none => none
-  | .neg a, next =>
-    match lowerE nm a next with
-    | some (aa, ta, ca, n1) =>
-      if aa.isConst then none else
-      match numTy ta with
-      | some (_, w) =>
-        some (.var n1 w, ta, ca ++ [⟨.sub, [.const 0 32 32 true 32, aa], some (n1, w)⟩], n1 + 1)
-      | none => none
-    | none => none
-  | .cast t a, next =>
-    match lowerE nm a next with
-    | some (aa, ta, ca, n1) =>
-      match numTy ta, numTy t with
-      | some (s, w), some (s', w') =>
-        if aa.isConst then
-          -- constant conversion: folded
-          if litOk s' w' (constVal aa) then some (constArg (constVal aa) s' w', t, ca, n1) else none
-        else if s && !s' && decide (w < w') then none
-        else some (.var n1 w', t,
-          ca ++ [⟨if s && s' && decide (w < w') then .smov else .mov, [aa], some (n1, w')⟩], n1 + 1)
-      | _, _ => none
-    | none => none
-  | _, _ => none
+    | some (.konst n) => some n
+    | _ => none
+  | _ => none
+
+/-- `slice a from to` into a fresh value of `w = to - from` wires. -/
+def sliceI (a : SArg) (off w id : Nat) : SInstr := ⟨.slice, [a, .k off, .k (off + w)], some (id, w)⟩
 
 /-! ### Function results along the branch structure -/
 
-/-- Where a block leaves: falls through, returns the values `(id, bits)`, or
+/-- Where a block leaves: falls through, returns the values `(id, type)`, or
 branches on the condition value `c`. -/
 inductive RTree where
   | fall
-  | ret (rs : List (Nat × Nat))
+  | ret (rs : List (Nat × Ty))
   | br (c : Nat) (t f : RTree)
   deriving Repr, Inhabited
 
@@ -272,25 +249,25 @@ def RTree.seq : RTree → RTree → RTree
   | .ret rs, _ => .ret rs
   | .br c t f, t2 => .br c (t.seq t2) (f.seq t2)
 
-/-- The leaf a store selects (`none`: falls through). -/
-def RTree.eval (st : Nat → Nat) : RTree → Option (List (Nat × Nat))
+/-- The leaf a store selects (`none`: falls through): wire patterns with their types. -/
+def RTree.eval (st : Nat → Nat) : RTree → Option (List (Nat × Ty))
   | .fall => none
   | .ret rs => some (rs.map fun p => (st p.1, p.2))
   | .br c t f => if st c % 2 = 1 then t.eval st else f.eval st
 
-def matPhis (c : Nat) : List (Nat × Nat) → List (Nat × Nat) → Nat → Option (List (Nat × Nat) × List SInstr × Nat)
+def matPhis (c : Nat) : List (Nat × Ty) → List (Nat × Ty) → Nat → Option (List (Nat × Ty) × List SInstr × Nat)
   | [], [], k => some ([], [], k)
-  | (i, w) :: r, (j, w') :: r', k =>
-    if w = w' then
+  | (i, t) :: r, (j, t') :: r', k =>
+    if tyEq t t' then
       match matPhis c r r' (k + 1) with
       | some (rs, code, k') =>
-        some ((k, w) :: rs, ⟨.phi, [.var c 1, .var i w, .var j w], some (k, w)⟩ :: code, k')
+        some ((k, t) :: rs, ⟨.phi, [.var c 1, .var i t.bits, .var j t.bits], some (k, t.bits)⟩ :: code, k')
       | none => none
     else none
   | _, _, _ => none
 
 /-- Model of Block.ReturnBinding: select every result along the branches. -/
-def RTree.mat : RTree → Nat → Option (List (Nat × Nat) × List SInstr × Nat)
+def RTree.mat : RTree → Nat → Option (List (Nat × Ty) × List SInstr × Nat)
   | .fall, _ => none
   | .ret rs, k => some (rs, [], k)
   | .br c t f, k =>
@@ -310,10 +287,7 @@ def mergeB (c : Nat) : Bind → Bind → Nat → Option (Bind × List SInstr × 
   | .val i t, .val j t', k =>
     if tyEq t t' then
       if i = j then some (.val i t, [], k)
-      else
-        match sbits t with
-        | some w => some (.val k t, [⟨.phi, [.var c 1, .var i w, .var j w], some (k, w)⟩], k + 1)
-        | none => none
+      else some (.val k t, [⟨.phi, [.var c 1, .var i t.bits, .var j t.bits], some (k, t.bits)⟩], k + 1)
     else none
   | .konst n, .konst m, k => if n = m then some (.konst n, [], k) else none
   | _, _, _ => none
@@ -369,71 +343,294 @@ structure LRes where
 /-- `mov` of an operand into a fresh value of width `w`. -/
 def movI (a : SArg) (id w : Nat) : SInstr := ⟨.mov, [a], some (id, w)⟩
 
-/-- The zero constant of a scalar type (ast/ssagen.go initValue; an integer
-constant is at least 32 bits wide). -/
-def zeroArg : Ty → Option SArg
-  | .bool => some (.pat 0 1)
-  | .int w => some (.const 0 32 (max w 32) true (max w 32))
-  | .uint w => some (.const 0 32 (max w 32) false (max w 32))
-  | _ => none
-
-/-- Model of Return.SSA: every result is moved into a fresh version of the
-result variable. -/
-def lowerRet (nm : NEnv) : List Expr → Nat → Option (List (Nat × Nat) × List SInstr × Nat)
-  | [], next => some ([], [], next)
-  | e :: es, next =>
-    match lowerE nm e next with
-    | some (aa, t, ce, n1) =>
-      match sbits t with
-      | some w =>
-        match lowerRet nm es (n1 + 1) with
-        | some (rs, cs, n2) => some ((n1, w) :: rs, (ce ++ [movI aa n1 w]) ++ cs, n2)
-        | none => none
-      | none => none
-    | none => none
+/-- The zero constant of a type (ast/ssagen.go initValue; an integer
+constant is at least 32 bits wide; arrays and structs: all wires 0). -/
+def zeroArg : Ty → SArg
+  | .bool => .pat 0 1
+  | .int w => .const 0 32 (max w 32) true (max w 32)
+  | .uint w => .const 0 32 (max w 32) false (max w 32)
+  | t => .pat 0 t.bits
 
 /-- Leave a block scope (`Outcome.pop`). -/
 def popN (nms : Option NEnv) : Option NEnv := nms.map List.tail
 
+/-- Offset and type of the component an l-value path selects in a value of
+type `t` (Assign.SSA: `offset += index.i * t.ElementType.Bits`; struct fields:
+types.StructField.Type.Offset); an index `>= n` is a compile error. -/
+def pathOff (nm : NEnv) : Ty → List Acc → Option (Nat × Ty)
+  | t, [] => some (0, t)
+  | .arr n e, .idx ie :: p =>
+    match constIdx nm ie with
+    | some k =>
+      if k < n then
+        match pathOff nm e p with
+        | some (o, lt) => some (k * e.bits + o, lt)
+        | none => none
+      else none
+    | none => none
+  | .struct fs, .fld k :: p =>
+    match fs[k]? with
+    | some t =>
+      match pathOff nm t p with
+      | some (o, lt) => some (bitsList (fs.take k) + o, lt)
+      | none => none
+    | none => none
+  | _, _ => none
+
+/-- The instructions that store the operand `va` into the component `[off, off+w)`
+of the root value `root` (`bits` wires), and the id of the new version of the
+root variable: a whole variable gets a `mov` (LRValue.Set); a struct field an
+`amov` into the new version (LRValue.Set, structField); an array element an
+`amov` into an anonymous value which is then moved into the new version
+(Assign.SSA, Index l-value: `gen.AnonVal`, `lrv.Set(val)`). -/
+def storeCode (path : List Acc) (va root : SArg) (off w bits next : Nat) : List SInstr × Nat :=
+  match path with
+  | [] => ([movI va next bits], next)
+  | .fld _ :: _ => ([⟨.amov, [va, root, .k off, .k (off + w)], some (next, bits)⟩], next)
+  | .idx _ :: _ =>
+    ([⟨.amov, [va, root, .k off, .k (off + w)], some (next, bits)⟩, movI (.var next bits) (next + 1) bits], next + 1)
+
+/-- Model of LRValue.Set / Assign.SSA for one l-value. -/
+def assignVal (nm : NEnv) (lv : LVal) (va : SArg) (tv : Ty) (next : Nat) : Option (NEnv × List SInstr × Nat) :=
+  match nm.find lv.x with
+  | some (.val id tx) =>
+    match pathOff nm tx lv.path with
+    | some (off, lt) =>
+      if tyEq lt tv then
+        let sc := storeCode lv.path va (.var id tx.bits) off lt.bits tx.bits next
+        match nm.set lv.x (.val sc.2 tx) with
+        | some nm' => some (nm', sc.1, sc.2 + 1)
+        | none => none
+      else none
+    | none => none
+  | _ => none
+
+/-- `l1, .., ln = f(..)`: the results are stored one after the other. -/
+def assignAllVals : NEnv → List LVal → List (Nat × Ty) → Nat → Option (NEnv × List SInstr × Nat)
+  | nm, [], [], next => some (nm, [], next)
+  | nm, lv :: lvs, (id, t) :: rs, next =>
+    match assignVal nm lv (.var id t.bits) t next with
+    | some (nm1, c1, n1) =>
+      match assignAllVals nm1 lvs rs n1 with
+      | some (nm2, c2, n2) => some (nm2, c1 ++ c2, n2)
+      | none => none
+    | none => none
+  | _, _, _, _ => none
+
+/-- `x1, .., xn := f(..)`: one `mov` per new variable. -/
+def defineAllVals : NEnv → List String → List (Nat × Ty) → Nat → Option (NEnv × List SInstr × Nat)
+  | nm, [], [], next => some (nm, [], next)
+  | nm, x :: xs, (id, t) :: rs, next =>
+    match defineAllVals (nm.declare x (.val next t)) xs rs (next + 1) with
+    | some (nm2, c2, n2) => some (nm2, movI (.var id t.bits) next t.bits :: c2, n2)
+    | none => none
+  | _, _, _, _ => none
+
+/-- Call.SSA "Define arguments": one `mov` per parameter into a fresh value
+bound to the parameter's name. -/
+def bindArgs : List (String × Ty) → List (SArg × Ty) → Nat → Option (NScope × List SInstr × Nat)
+  | [], [], next => some ([], [], next)
+  | (x, t) :: ps, (aa, ta) :: as, next =>
+    if tyEq t ta then
+      match bindArgs ps as (next + 1) with
+      | some (sc, code, n2) => some ((x, .val next t) :: sc, movI aa next t.bits :: code, n2)
+      | none => none
+    else none
+  | _, _, _ => none
+
 mutual
 
+/-- Model of Binary.SSA / Unary.SSA / Call.cast / VariableRef.SSA / BasicLit.SSA /
+Index.SSA / Call.SSA (one result).  Result: operand, its type, the code, the
+next free value id. -/
+def lowerE (P : Prog) : Nat → NEnv → Expr → Nat → Option (SArg × Ty × List SInstr × Nat)
+  | 0, _, _, _ => none
+  | _ + 1, _, .lit t n, next =>
+    match t with
+    | .bool => some (.pat (if n = 0 then 0 else 1) 1, .bool, [], next)
+    | .int w => if litOk true w n then some (constArg n true w, t, [], next) else none
+    | .uint w => if litOk false w n then some (constArg n false w, t, [], next) else none
+    | _ => none
+  | _ + 1, nm, .var x, next =>
+    match nm.find x with
+    | some (.val id t) => some (.var id t.bits, t, [], next)
+    | some (.konst n) => some (constArg n true 32, .int 32, [], next)
+    | none => none
+  | f + 1, nm, .bin op a b, next =>
+    match lowerE P f nm a next with
+    | some (aa, ta, ca, n1) =>
+      match lowerE P f nm b n1 with
+      | some (ba, tb, cb, n2) =>
+        if aa.isConst && ba.isConst then none
+        else if !tyEq ta tb then none
+        else
+          match lowerBin op ta with
+          | some (sop, tr) => some (.var n2 tr.bits, tr, ca ++ cb ++ [⟨sop, [aa, ba], some (n2, tr.bits)⟩], n2 + 1)
+          | none => none
+      | none => none
+    | none => none
+  | f + 1, nm, .shift left a k, next =>
+    match lowerE P f nm a next with
+    | some (aa, ta, ca, n1) =>
+      if aa.isConst then none else
+      match numTy ta with
+      | some (s, w) =>
+        some (.var n1 w, ta,
+          ca ++ [⟨if left then .lshift else if s then .srshift else .rshift, [aa, .k k], some (n1, w)⟩], n1 + 1)
+      | none => none
+    | none => none
+  | f + 1, nm, .not a, next =>
+    match lowerE P f nm a next with
+    | some (aa, ta, ca, n1) =>
+      if aa.isConst then none else
+      match ta with
+      | .bool => some (.var n1 1, .bool, ca ++ [⟨.lnot, [aa], some (n1, 1)⟩], n1 + 1)
+      | _ => none
+    | none => none
+  | f + 1, nm, .neg a, next =>
+    match lowerE P f nm a next with
+    | some (aa, ta, ca, n1) =>
+      if aa.isConst then none else
+      match numTy ta with
+      | some (_, w) =>
+        some (.var n1 w, ta, ca ++ [⟨.sub, [.const 0 32 32 true 32, aa], some (n1, w)⟩], n1 + 1)
+      | none => none
+    | none => none
+  | f + 1, nm, .cast t a, next =>
+    match lowerE P f nm a next with
+    | some (aa, ta, ca, n1) =>
+      match numTy ta, numTy t with
+      | some (s, w), some (s', w') =>
+        if aa.isConst then
+          -- constant conversion: folded
+          if litOk s' w' (constVal aa) then some (constArg (constVal aa) s' w', t, ca, n1) else none
+        else if s && !s' && decide (w < w') then none
+        else some (.var n1 w', t,
+          ca ++ [⟨if s && s' && decide (w < w') then .smov else .mov, [aa], some (n1, w')⟩], n1 + 1)
+      | _, _ => none
+    | none => none
+  | f + 1, nm, .idx a i, next =>
+    match lowerE P f nm a next with
+    | some (aa, .arr n e, ca, n1) =>
+      if aa.isConst then none else
+      match constIdx nm i with
+      | some k =>
+        -- Index.constIndex
+        if k < n then some (.var n1 e.bits, e, ca ++ [sliceI aa (k * e.bits) e.bits n1], n1 + 1) else none
+      | none =>
+        -- Index.index: the index type cannot exceed the array
+        match lowerE P f nm i n1 with
+        | some (ia, .uint w, ci, n2) =>
+          if ia.isConst then none
+          else if 2 ^ w ≤ n ∧ 0 < e.bits then
+            some (.var n2 e.bits, e, ca ++ ci ++ [⟨.index, [aa, .k 0, ia, .k e.bits], some (n2, e.bits)⟩], n2 + 1)
+          else none
+        | _ => none
+    | _ => none
+  | f + 1, nm, .fld a k, next =>
+    match lowerE P f nm a next with
+    | some (aa, .struct fs, ca, n1) =>
+      if aa.isConst then none else
+      match fs[k]? with
+      | some t => some (.var n1 t.bits, t, ca ++ [sliceI aa (bitsList (fs.take k)) t.bits n1], n1 + 1)
+      | none => none
+    | _ => none
+  | f + 1, nm, .call g args, next =>
+    match lowerCall P f nm g args next with
+    | some ([(id, t)], code, n1) => some (.var id t.bits, t, code, n1)
+    | _ => none
+
+/-- Arguments of a call, left to right; constants are not in the fragment. -/
+def lowerArgs (P : Prog) : Nat → NEnv → List Expr → Nat → Option (List (SArg × Ty) × List SInstr × Nat)
+  | 0, _, _, _ => none
+  | _ + 1, _, [], next => some ([], [], next)
+  | f + 1, nm, e :: es, next =>
+    match lowerE P f nm e next with
+    | some (aa, t, ce, n1) =>
+      if aa.isConst then none else
+      match lowerArgs P f nm es n1 with
+      | some (as, cs, n2) => some ((aa, t) :: as, ce ++ cs, n2)
+      | none => none
+    | none => none
+
+/-- Model of Call.SSA + Func.SSA: the callee is inlined; its results are
+selected along its branch structure. -/
+def lowerCall (P : Prog) : Nat → NEnv → Nat → List Expr → Nat → Option (List (Nat × Ty) × List SInstr × Nat)
+  | 0, _, _, _, _ => none
+  | f + 1, nm, g, args, next =>
+    match P[g]? with
+    | none => none
+    | some fn =>
+      match lowerArgs P f nm args next with
+      | none => none
+      | some (avs, ca, n1) =>
+        match bindArgs fn.params avs n1 with
+        | none => none
+        | some (sc, cb, n2) =>
+          match lowerB P f [sc] n2 fn.body with
+          | none => none
+          | some r =>
+            match r.tree.mat r.next with
+            | some (rs, cm, n3) =>
+              if rs.length = fn.nres then some (rs, ca ++ cb ++ r.code ++ cm, n3) else none
+            | none => none
+
+/-- Model of Return.SSA: every result is moved into a fresh version of the
+result variable. -/
+def lowerRet (P : Prog) : Nat → NEnv → List Expr → Nat → Option (List (Nat × Ty) × List SInstr × Nat)
+  | 0, _, _, _ => none
+  | _ + 1, _, [], next => some ([], [], next)
+  | f + 1, nm, e :: es, next =>
+    match lowerE P f nm e next with
+    | some (aa, t, ce, n1) =>
+      match lowerRet P f nm es (n1 + 1) with
+      | some (rs, cs, n2) => some ((n1, t) :: rs, (ce ++ [movI aa n1 t.bits]) ++ cs, n2)
+      | none => none
+    | none => none
+
 /-- Model of VariableDef.SSA, Assign.SSA, If.SSA, For.SSA, Return.SSA. -/
-def lowerS : Nat → NEnv → Nat → Stmt → Option LRes
+def lowerS (P : Prog) : Nat → NEnv → Nat → Stmt → Option LRes
   | 0, _, _, _ => none
   | _ + 1, nm, next, .decl x t none =>
-    match zeroArg t, sbits t with
-    | some z, some w => some ⟨some (nm.declare x (.val next t)), .fall, [movI z next w], next + 1⟩
-    | _, _ => none
-  | _ + 1, nm, next, .decl x t (some e) =>
-    match lowerE nm e next with
+    some ⟨some (nm.declare x (.val next t)), .fall, [movI (zeroArg t) next t.bits], next + 1⟩
+  | f + 1, nm, next, .decl x t (some e) =>
+    match lowerE P f nm e next with
     | some (aa, te, ce, n1) =>
-      match sbits t with
-      | some w =>
-        if tyEq t te then some ⟨some (nm.declare x (.val n1 t)), .fall, ce ++ [movI aa n1 w], n1 + 1⟩ else none
+      if tyEq t te then some ⟨some (nm.declare x (.val n1 t)), .fall, ce ++ [movI aa n1 t.bits], n1 + 1⟩ else none
+    | none => none
+  | f + 1, nm, next, .define [x] e =>
+    match lowerE P f nm e next with
+    | some (aa, te, ce, n1) =>
+      if aa.isConst then none
+      else some ⟨some (nm.declare x (.val n1 te)), .fall, ce ++ [movI aa n1 te.bits], n1 + 1⟩
+    | none => none
+  | f + 1, nm, next, .define (x :: y :: xs) (.call g args) =>
+    match lowerCall P f nm g args next with
+    | some (rs, cc, n1) =>
+      match defineAllVals nm (x :: y :: xs) rs n1 with
+      | some (nm', cd, n2) => some ⟨some nm', .fall, cc ++ cd, n2⟩
       | none => none
     | none => none
-  | _ + 1, nm, next, .define [x] e =>
-    match lowerE nm e next with
+  | f + 1, nm, next, .assign [lv] e =>
+    match lowerE P f nm e next with
     | some (aa, te, ce, n1) =>
-      if aa.isConst then none else
-      match sbits te with
-      | some w => some ⟨some (nm.declare x (.val n1 te)), .fall, ce ++ [movI aa n1 w], n1 + 1⟩
+      match assignVal nm lv aa te n1 with
+      | some (nm', ca, n2) => some ⟨some nm', .fall, ce ++ ca, n2⟩
       | none => none
     | none => none
-  | _ + 1, nm, next, .assign [⟨x, []⟩] e =>
-    match nm.find x, lowerE nm e next with
-    | some (.val _ tx), some (aa, te, ce, n1) =>
-      match sbits tx, nm.set x (.val n1 tx) with
-      | some w, some nm' =>
-        if tyEq tx te then some ⟨some nm', .fall, ce ++ [movI aa n1 w], n1 + 1⟩ else none
-      | _, _ => none
-    | _, _ => none
+  | f + 1, nm, next, .assign (l1 :: l2 :: lvs) (.call g args) =>
+    match lowerCall P f nm g args next with
+    | some (rs, cc, n1) =>
+      match assignAllVals nm (l1 :: l2 :: lvs) rs n1 with
+      | some (nm', ca, n2) => some ⟨some nm', .fall, cc ++ ca, n2⟩
+      | none => none
+    | none => none
   | f + 1, nm, next, .ifte c th el =>
-    match lowerE nm c next with
+    match lowerE P f nm c next with
     | some (.var cid _, .bool, cc, n1) =>
-      match lowerB f ([] :: nm) n1 th with
+      match lowerB P f ([] :: nm) n1 th with
       | some rt =>
-        match lowerB f ([] :: nm) rt.next el with
+        match lowerB P f ([] :: nm) rt.next el with
         | some rf =>
           match joinN cid (popN rt.nms) (popN rf.nms) rf.next with
           | some (nms', cm, n4) =>
@@ -442,24 +639,24 @@ def lowerS : Nat → NEnv → Nat → Stmt → Option LRes
         | none => none
       | none => none
     | _ => none
-  | f + 1, nm, next, .for i lo c hi st body => lowerFor f i lo c hi st body nm next
-  | _ + 1, nm, next, .ret es =>
-    match lowerRet nm es next with
+  | f + 1, nm, next, .for i lo c hi st body => lowerFor P f i lo c hi st body nm next
+  | f + 1, nm, next, .ret es =>
+    match lowerRet P f nm es next with
     | some (rs, code, n1) => some ⟨none, .ret rs, code, n1⟩
     | none => none
   | _ + 1, _, _, _ => none
 
 /-- Model of List.SSA: statements after a block that returned on every path
 are not in the fragment (the real compiler drops them with a warning). -/
-def lowerB : Nat → NEnv → Nat → List Stmt → Option LRes
+def lowerB (P : Prog) : Nat → NEnv → Nat → List Stmt → Option LRes
   | 0, _, _, _ => none
   | _ + 1, nm, next, [] => some ⟨some nm, .fall, [], next⟩
   | f + 1, nm, next, s :: ss =>
-    match lowerS f nm next s with
+    match lowerS P f nm next s with
     | some r1 =>
       match r1.nms with
       | some nm1 =>
-        match lowerB f nm1 r1.next ss with
+        match lowerB P f nm1 r1.next ss with
         | some r2 => some ⟨r2.nms, r1.tree.seq r2.tree, r1.code ++ r2.code, r2.next⟩
         | none => none
       | none => match ss with
@@ -469,16 +666,16 @@ def lowerB : Nat → NEnv → Nat → List Stmt → Option LRes
 
 /-- Model of For.SSA: the body is generated once per iteration with the loop
 variable bound to the int32 constant `cur` (which must be in `0 .. 2^31-1`). -/
-def lowerFor : Nat → String → Int → Cmp → Int → Int → List Stmt → NEnv → Nat → Option LRes
+def lowerFor (P : Prog) : Nat → String → Int → Cmp → Int → Int → List Stmt → NEnv → Nat → Option LRes
   | 0, _, _, _, _, _, _, _, _ => none
   | f + 1, i, cur, c, hi, st, body, nm, next =>
     if c.holds cur hi then
       if 0 ≤ cur ∧ cur < 2 ^ 31 then
-        match lowerB f ([(i, .konst cur.toNat)] :: nm) next body with
+        match lowerB P f ([(i, .konst cur.toNat)] :: nm) next body with
         | some r1 =>
           match popN r1.nms with
           | some nm1 =>
-            match lowerFor f i (cur + st) c hi st body nm1 r1.next with
+            match lowerFor P f i (cur + st) c hi st body nm1 r1.next with
             | some r2 => some ⟨r2.nms, r1.tree.seq r2.tree, r1.code ++ r2.code, r2.next⟩
             | none => none
           | none => some ⟨none, r1.tree, r1.code, r1.next⟩
@@ -491,13 +688,13 @@ end
 /-! ### Scoping side condition -/
 
 mutual
-/-- Names declared by a statement (`var`, `:=`, loop variables), syntactically. -/
+/-- Names declared by `var` and `:=`, syntactically. -/
 def declS : Stmt → List String
   | .decl x _ _ => [x]
   | .define xs _ => xs
   | .assign _ _ => []
   | .ifte _ th el => declB th ++ declB el
-  | .for i _ _ _ _ body => i :: declB body
+  | .for _ _ _ _ _ body => declB body
   | .ret _ => []
 def declB : List Stmt → List String
   | [] => []
@@ -516,42 +713,98 @@ def defineOkB (inFor : Bool) : List Stmt → Bool
   | s :: ss => defineOkS inFor s && defineOkB inFor ss
 end
 
+mutual
+/-- A loop variable is neither the variable of an enclosing loop (`outer`) nor any
+other name of the function (`others`); loops one after the other may use the same
+name (For.SSA re-evaluates the init statement; the name stays bound after the loop,
+which the reference semantics cannot observe when nothing else has that name). -/
+def loopOkS (outer others : List String) : Stmt → Bool
+  | .ifte _ th el => loopOkB outer others th && loopOkB outer others el
+  | .for i _ _ _ _ body => !outer.contains i && !others.contains i && loopOkB (i :: outer) others body
+  | _ => true
+def loopOkB (outer others : List String) : List Stmt → Bool
+  | [] => true
+  | s :: ss => loopOkS outer others s && loopOkB outer others ss
+end
+
 def noDup : List String → Bool
   | [] => true
   | x :: xs => !xs.contains x && noDup xs
 
 /-- MPCL has function-level scoping (known deviations
 C03-inner-block-redeclaration, C03-define-redeclared-rejected): the model is
-faithful only where no name is declared twice. -/
+faithful only where no name is declared twice (loop variables: not twice in
+nested loops, never the name of a parameter or of a `var` / `:=`). -/
 def scopeOk (fn : Func) : Bool :=
-  noDup (fn.params.map (·.1) ++ declB fn.body) && defineOkB false fn.body
+  let names := fn.params.map (·.1) ++ declB fn.body
+  noDup names && loopOkB [] names fn.body && defineOkB false fn.body
 
-/-! ### Whole functions -/
+/-! ### No recursion: a call targets a function with a smaller index -/
 
-def lowerParams : List (String × Ty) → Nat → Option (NScope × List (Nat × Nat))
-  | [], _ => some ([], [])
+mutual
+def callsBelowE (k : Nat) : Expr → Bool
+  | .bin _ a b => callsBelowE k a && callsBelowE k b
+  | .shift _ a _ => callsBelowE k a
+  | .not a => callsBelowE k a
+  | .neg a => callsBelowE k a
+  | .cast _ a => callsBelowE k a
+  | .idx a i => callsBelowE k a && callsBelowE k i
+  | .fld a _ => callsBelowE k a
+  | .call g args => decide (g < k) && callsBelowEs k args
+  | _ => true
+def callsBelowEs (k : Nat) : List Expr → Bool
+  | [] => true
+  | e :: es => callsBelowE k e && callsBelowEs k es
+end
+
+mutual
+def callsBelowS (k : Nat) : Stmt → Bool
+  | .decl _ _ none => true
+  | .decl _ _ (some e) => callsBelowE k e
+  | .define _ e => callsBelowE k e
+  | .assign _ e => callsBelowE k e
+  | .ifte c th el => callsBelowE k c && callsBelowB k th && callsBelowB k el
+  | .for _ _ _ _ _ body => callsBelowB k body
+  | .ret es => callsBelowEs k es
+def callsBelowB (k : Nat) : List Stmt → Bool
+  | [] => true
+  | s :: ss => callsBelowS k s && callsBelowB k ss
+end
+
+def callsOkFrom (k : Nat) : List Func → Bool
+  | [] => true
+  | fn :: r => callsBelowB k fn.body && callsOkFrom (k + 1) r
+
+/-- Every function satisfies the scoping condition and only calls functions
+declared before it. -/
+def progOk (P : Prog) : Bool := P.all scopeOk && callsOkFrom 0 P
+
+/-! ### Whole programs -/
+
+def lowerParams : List (String × Ty) → Nat → NScope × List (Nat × Nat)
+  | [], _ => ([], [])
   | (x, t) :: ps, i =>
-    match sbits t, lowerParams ps (i + 1) with
-    | some w, some (nm, ins) => some ((x, .val i t) :: nm, (i, w) :: ins)
-    | _, _ => none
+    let r := lowerParams ps (i + 1)
+    ((x, .val i t) :: r.1, (i, t.bits) :: r.2)
 
-/-- `lower fuel fn`: the SSA program (inputs, steps) of the model of ssagen for
-the function `fn` (fuel: nesting depth + statements + loop iterations, as in the
-interpreter). -/
-def lower (fuel : Nat) (fn : Func) : Option (List (Nat × Nat) × List SInstr) :=
-  if !scopeOk fn then none else
-  match lowerParams fn.params 0 with
-  | some (sc, ins) =>
-    match lowerB fuel [sc] fn.params.length fn.body with
+/-- `lower fuel P main`: the SSA program (inputs, steps) of the model of ssagen
+for the function `main` of `P` with all calls inlined (fuel: nesting depth +
+statements + loop iterations + expression depth, as in the interpreter). -/
+def lower (fuel : Nat) (P : Prog) (main : Nat) : Option (List (Nat × Nat) × List SInstr) :=
+  if !progOk P then none else
+  match P[main]? with
+  | none => none
+  | some fn =>
+    let pr := lowerParams fn.params 0
+    match lowerB P fuel [pr.1] fn.params.length fn.body with
     | some r =>
       match r.tree.mat r.next with
       | some (rs, cm, _) =>
         if rs.length = fn.nres then
-          some (ins, r.code ++ cm ++ [⟨.ret, rs.map fun p => .var p.1 p.2, none⟩])
+          some (pr.2, r.code ++ cm ++ [⟨.ret, rs.map fun p => .var p.1 p.2.bits, none⟩])
         else none
       | none => none
     | none => none
-  | none => none
 
 /-! ### Totality of the emitted code -/
 
@@ -564,7 +817,8 @@ def instrTotal (i : SInstr) : Bool :=
   | .lshift, [_, _] | .rshift, [_, _] | .srshift, [_, _]
   | .ilt, [_, _] | .ult, [_, _] | .ile, [_, _] | .ule, [_, _] | .igt, [_, _] | .ugt, [_, _] | .ige, [_, _] | .uge, [_, _]
   | .eq, [_, _] | .neq, [_, _] | .land, [_, _] | .lor, [_, _]
-  | .lnot, [_] | .mov, [_] | .smov, [_] | .phi, [_, _, _] => true
+  | .lnot, [_] | .mov, [_] | .smov, [_] | .phi, [_, _, _]
+  | .slice, [_, _, _] | .index, [_, _, _, _] | .amov, [_, _, _, _] => true
   | _, _ => false
 
 /-- A division / modulo instruction (fails on a zero divisor only). -/
@@ -578,18 +832,23 @@ def instrDiv (i : SInstr) : Bool :=
 none of them can fail). -/
 def instrOk (allowDiv : Bool) (i : SInstr) : Bool := instrTotal i || (allowDiv && instrDiv i)
 
-/-- No `/` and `%` in an expression. -/
+mutual
+/-- No `/` and `%` in an expression (the bodies of called functions are covered
+by `noDivP`). -/
 def noDivE : Expr → Bool
   | .bin op a b => op != .div && op != .mod && noDivE a && noDivE b
   | .shift _ a _ => noDivE a
   | .not a => noDivE a
   | .neg a => noDivE a
   | .cast _ a => noDivE a
+  | .idx a i => noDivE a && noDivE i
+  | .fld a _ => noDivE a
+  | .call _ args => noDivEs args
   | _ => true
-
 def noDivEs : List Expr → Bool
   | [] => true
   | e :: es => noDivE e && noDivEs es
+end
 
 mutual
 def noDivS : Stmt → Bool
@@ -604,5 +863,8 @@ def noDivB : List Stmt → Bool
   | [] => true
   | s :: ss => noDivS s && noDivB ss
 end
+
+/-- No `/` and `%` anywhere in the program. -/
+def noDivP (P : Prog) : Bool := P.all fun fn => noDivB fn.body
 
 end Mpc.Mpcl.Ssa
